@@ -424,6 +424,10 @@ def run(ctx, report):
     from .c12 import state_copy_rule
     state_copy_rule(R12c, [ctx.mod('eval_abs')])
 
+    R14 = report.rule('C06.D14', 'every address looked up in the table of stored cells is simplified on every assignment that reaches the lookup (a bound memory cell is found '
+                      'under whatever spelling of its address the evaluated expression uses); shared with C07.D15', floor=3)
+    from .c07 import lookup_key_rule
+    lookup_key_rule(R14, ea, methods)
     R13 = report.rule('C06.D13', 'eval_ExprCond evaluated from the source on every kind of evaluated condition (constants, symbolic flags, a conditional with constant arms 0 / non-zero in '
                       'every combination, a comparison): the node it returns has the value of the selected arm under every valuation', floor=20)
     cond_eval_rule(ctx, R13)
@@ -1240,6 +1244,7 @@ def cond_eval_rule(ctx, R):
 
 
 MUTANTS = [
+    ('bigger-lookup-next-address-unsimplified', 'miasmx/expression/expression_eval_abstract.py', "                ptr = expr_simp(ExprOp('+', ptr, ExprInt(uint32(v.size//8))))", "                ptr = ExprOp('+', ptr, ExprInt(uint32(v.size//8)))", 'C06.D14'),
     ('cond-const-arms-swapped', 'miasmx/expression/expression_eval_abstract.py', '            if cond.arg == 0:\n                return src2\n            else:\n                return src1\n', '            if cond.arg == 0:\n                return src1\n            else:\n                return src2\n', 'C06.D13'),
     ('shift-eval-count-masked', 'miasmx/expression/expression_eval_abstract.py', "    def eval_op_rshift(self, args, op_size, cast_int):\n        r = args[1]#&0x1F", "    def eval_op_rshift(self, args, op_size, cast_int):\n        r = args[1]&0x1F", 'C06.D5'),
     ('mem-read-not-folded', 'miasmx/expression/expression_eval_abstract.py', "                    if ee is not None:\n                        # every piece is a constant: so is the cell\n                        return ee\n", "", 'C06.D6'),
